@@ -3,6 +3,8 @@
 Blocks are connected with streams. A block can have zero or more input
 streams, and write to zero or more output streams.
 */
+#[cfg(feature = "verif_hooks")]
+use crate::verif::shim as std;
 use std::collections::VecDeque;
 use std::sync::{Arc, Condvar, Mutex};
 
@@ -97,8 +99,18 @@ pub trait StreamWait {
 
     #[must_use]
     fn closed(&self) -> bool;
+
+    /// Identity of the underlying stream, for verification hooks.
+    #[cfg(feature = "verif_hooks")]
+    fn verif_id(&self) -> usize {
+        0
+    }
 }
 impl<T: Copy> StreamWait for ReadStream<T> {
+    #[cfg(feature = "verif_hooks")]
+    fn verif_id(&self) -> usize {
+        self.circ.verif_id()
+    }
     fn wait(&self, need: usize) -> bool {
         self.wait_for_read(need)
     }
@@ -107,6 +119,10 @@ impl<T: Copy> StreamWait for ReadStream<T> {
     }
 }
 impl<T: Copy> StreamWait for WriteStream<T> {
+    #[cfg(feature = "verif_hooks")]
+    fn verif_id(&self) -> usize {
+        self.circ.verif_id()
+    }
     fn wait(&self, need: usize) -> bool {
         self.wait_for_write(need)
     }
@@ -250,6 +266,11 @@ impl<T: Copy> WriteStream<T> {
 /// Basically anything that GNU Radio would *not* call a message port.
 #[must_use]
 pub fn new_stream<T>() -> (WriteStream<T>, ReadStream<T>) {
+    #[cfg(feature = "verif_hooks")]
+    let circ = Arc::new(
+        circular_buffer::Buffer::new(crate::verif::stream_size(DEFAULT_STREAM_SIZE)).unwrap(),
+    );
+    #[cfg(not(feature = "verif_hooks"))]
     let circ = Arc::new(circular_buffer::Buffer::new(DEFAULT_STREAM_SIZE).unwrap());
     (WriteStream { circ: circ.clone() }, ReadStream { circ })
 }
@@ -260,6 +281,10 @@ pub struct NCReadStream<T> {
 }
 
 impl<T> StreamWait for NCReadStream<T> {
+    #[cfg(feature = "verif_hooks")]
+    fn verif_id(&self) -> usize {
+        Arc::as_ptr(&self.q) as *const () as usize
+    }
     fn wait(&self, need: usize) -> bool {
         let (lock, cv) = &*self.q;
         let l = cv
@@ -277,6 +302,10 @@ impl<T> StreamWait for NCReadStream<T> {
 }
 
 impl<T> StreamWait for NCWriteStream<T> {
+    #[cfg(feature = "verif_hooks")]
+    fn verif_id(&self) -> usize {
+        Arc::as_ptr(&self.q) as *const () as usize
+    }
     fn wait(&self, _need: usize) -> bool {
         // TODO: we should have a maximum, shouldn't we?
         // For now, as much room as you need.
@@ -342,5 +371,75 @@ impl<T: Len> NCReadStream<T> {
     /// Get the size of the front packet.
     pub fn peek_size(&self) -> Option<usize> {
         self.q.0.lock().unwrap().front().map(|e| e.len())
+    }
+}
+
+#[cfg(feature = "verif_hooks")]
+mod verif_hooks {
+    use super::*;
+
+    impl<T: Copy> ReadStream<T> {
+        /// Number of handles (stream ends and live windows) on the buffer.
+        #[must_use]
+        pub fn verif_refcount(&self) -> usize {
+            Arc::strong_count(&self.circ)
+        }
+        /// See `Buffer::verif_preroll`.
+        pub fn verif_preroll(&self, pos: usize) {
+            self.circ.verif_preroll(pos)
+        }
+        /// See `Buffer::verif_positions`.
+        #[must_use]
+        pub fn verif_positions(&self) -> (usize, usize, usize) {
+            self.circ.verif_positions()
+        }
+    }
+
+    impl<T: Copy> WriteStream<T> {
+        /// Number of handles (stream ends and live windows) on the buffer.
+        #[must_use]
+        pub fn verif_refcount(&self) -> usize {
+            Arc::strong_count(&self.circ)
+        }
+        /// See `Buffer::verif_preroll`.
+        pub fn verif_preroll(&self, pos: usize) {
+            self.circ.verif_preroll(pos)
+        }
+        /// See `Buffer::verif_positions`.
+        #[must_use]
+        pub fn verif_positions(&self) -> (usize, usize, usize) {
+            self.circ.verif_positions()
+        }
+        /// Capacity in samples.
+        #[must_use]
+        pub fn verif_capacity(&self) -> usize {
+            self.circ.total_size()
+        }
+    }
+
+    impl<T> NCReadStream<T> {
+        /// Number of handles on the queue.
+        #[must_use]
+        pub fn verif_refcount(&self) -> usize {
+            Arc::strong_count(&self.q)
+        }
+        /// Number of queued elements.
+        #[must_use]
+        pub fn verif_len(&self) -> usize {
+            self.q.0.lock().unwrap().len()
+        }
+    }
+
+    impl<T> NCWriteStream<T> {
+        /// Number of handles on the queue.
+        #[must_use]
+        pub fn verif_refcount(&self) -> usize {
+            Arc::strong_count(&self.q)
+        }
+        /// Number of queued elements.
+        #[must_use]
+        pub fn verif_len(&self) -> usize {
+            self.q.0.lock().unwrap().len()
+        }
     }
 }
